@@ -396,6 +396,17 @@ Drift(ln) ==
   ELSE IF XsfActive(ln) /\ ln.status = 206 THEN "X-Sendfile combined with a 206"
   ELSE ""
 
+\* every text Drift / DriftSdm can return (the trace judge counts them per kind)
+DriftKinds ==
+  <<"text mode file: not refused with ValueError", "missing name: not refused with TypeError", "X-Sendfile sent with a 304",
+    "Content-Disposition without a name", "control character in Content-Disposition",
+    "filename fallback is not the NFKD ASCII projection of the name", "Content-Encoding sent although the mimetype was given",
+    "no Content-Length for a seekable binary file object", "ETag calculated for a file object", "ETag is not mtime-size-adler32(path)",
+    "Expires without max_age", "Expires is not now + max_age", "max_age=0: Cache-Control is not public",
+    "max_age callable not called exactly once", "X-Sendfile: the file was opened all the same", "X-Sendfile combined with a 206",
+    "SharedDataMiddleware: Expires is not now + cache_timeout", "SharedDataMiddleware: body sent for HEAD",
+    "SharedDataMiddleware: encoded file served without Content-Encoding">>
+
 \* ------------------------------------------------------------------ SharedDataMiddleware (header logic only)
 \* line: op "sdm", name (basename), path, g_p / g, fallback, cache, timeout, size, data, mtime, exists, request,
 \* observation as above (+ passed: the request went to the wrapped application).
